@@ -105,7 +105,7 @@ void harness(void) {
         entries[i].show_frame = (EbBool)vinbool(); entries[i].has_show_existing = (EbBool)vinbool();   /* stale content of the slot */
         entries[i].output_stream_wrapper_ptr = NULL; entries[i].picture_number = HEAD + (unsigned)i;
         w_out[i].object_ptr = &outbuf[i];
-        flen[i] = (int)vin_range(1, 3);
+        flen[i] = 1 + (i % 2);    /* concrete frame sizes (symbolic sizes make every memmove of the assembly a symbolic-length copy) */
     }
     eos_on = vinbool();
     /* GOP shape and expected display order (<= 1 outstanding hidden frame) */
